@@ -57,8 +57,22 @@ def adi_cases(seed, count, tag, max_side=6):
             pool = [dict(Ks=ks), dict(Ka=ka), dict(Ks=ks), dict(Ks=rng.randint(1, 4)), dict(Ka=[ks] * n), dict(Ka=ka)]
             c["hist"] = [pool[0]] + [rng.choice(pool) for _ in range(rng.randint(2, 5))]
             if rng.random() < 0.5:
+                # the eroder is copied (copy constructor) in the middle of the history; the copy gets another
+                # diffusivity; the original, called again WITHOUT any setter call, must still use its own (and
+                # the other way round): two objects are two values
+                at = rng.randint(1, len(c["hist"]))
+                cur0 = dict(c["hist"][at - 1])
+                new1 = rng.choice([dict(Ks=rng.randint(1, 4)), dict(Ka=[rng.randint(1, 4) for _ in range(n)])])
+                tail = [dict(copy=1), dict(new1, obj=1), dict(cur0, obj=0, noset=1)]
+                if rng.random() < 0.5:
+                    new0 = rng.choice(pool)
+                    tail += [dict(new0, obj=0), dict(new1, obj=1, noset=1)]
+                c["hist"][at:at] = tail
+            if rng.random() < 0.5:
                 # a call with a wrong-shaped elevation in the middle of the history (non-square grids matter)
-                c["hist"].insert(rng.randint(1, len(c["hist"]) - 1), dict(bad="rows"))
+                pos_ok = [j for j in range(1, len(c["hist"])) if "copy" not in c["hist"][j] and not c["hist"][j].get("noset")]
+                if pos_ok:
+                    c["hist"].insert(rng.choice(pos_ok), dict(bad="rows"))
         if rng.random() < 0.6:
             c["lin"] = dict(a=rng.randint(-3, 3), b=rng.randint(-3, 3), x=[rng.randint(0, 6) for _ in range(n)],
                             y=[rng.randint(-4, 4) for _ in range(n)])
